@@ -29,9 +29,9 @@ def s_case(draw, tier):
     p = draw(tempogen.params_spec(d, tier, n_min=2, n_max=6, eps=[1e-7, 1e-8]))
     N = p["N"]
     ctl = []
-    for _ in range(draw(st.integers(0, 3))):
-        ctl.append({"step": draw(st.integers(0, N)), "float": draw(st.booleans()),
-                    "delta": draw(st.sampled_from([-0.3, 0.0, 0.2])), "post": draw(st.booleans()),
+    for _ in range(draw(st.integers(0, 4))):
+        ctl.append({"step": draw(st.integers(0, N)), "float": draw(st.sampled_from([True, True, True, False])),
+                    "delta": draw(st.sampled_from([-0.4, -0.3, -0.1, 0.0, 0.2, 0.4])), "post": draw(st.booleans()),
                     "op": draw(ancgen.control_op_spec(d))})
     return {"d": d, "par": p, "bath": draw(tempogen.bath_spec(d, custom_weight=0.0, temps=[0.0, 0.5], zetas=[1.0, 3.0])),
             "sys": draw(sysgen.sys_spec(d, force_td=True)), "rho0": draw(gens.dm_spec(d)),
